@@ -37,6 +37,11 @@ fn off_strategy() -> BS<i128> {
         (3, (-10_000i128..10_000, 0i128..4096, 0i128..1_000_000_000).prop_map(|(y, ph, jit)| (y * 31_557_600 * NS_S + ph * (31_557_600 * NS_S / 4096) + jit).clamp(-SPAN, SPAN)).boxed()),
         (1, small_delta(1000)),
         (1, tai_count_any().prop_map(|t| (t - j2000_ns()).clamp(-SPAN, SPAN)).boxed()),
+        // whole centuries from J2000 plus one of the constant offsets between scales (+-32.184 s, 0), +- 2 ms:
+        // where the nanosecond field of the dynamical count is about to borrow from the century field
+        (1, (-99i128..=99, prop::sample::select(vec![0i128, 32_184_000_000, -32_184_000_000]), -2_000_000i128..=2_000_000).prop_map(|(k, o, d)| (k * NPC + o + d).clamp(-SPAN, SPAN)).boxed()),
+        // the mirror image of J2000 about J1900 (a count of -J2000), and of 1900 about J2000, +- a few ns
+        (1, (prop::sample::select(vec![-2i128, -1]), small_delta(3)).prop_map(|(k, d)| k * j2000_ns() + d).boxed()),
     ])
 }
 
